@@ -212,7 +212,12 @@ type Harness struct {
 	Concrete bool
 	// Complete (Concrete mode): before a non-inlined call returns, run this function value with these arguments —
 	// the completion callback of an asynchronous operation being invoked before the operation call returns.
-	Complete func(st *State, name string, args []AV) (fn AV, cbArgs []AV, ok bool)
+	// Several argument lists mean several invocations in that order (a Range over a map of known contents); an
+	// invocation returning the boolean false ends the sequence (Range's early exit).
+	Complete func(st *State, name string, args []AV) (fn AV, calls [][]AV, ok bool)
+	// Sequence: a boolean location (by symbol) whose successive reads yield these values (the last one repeating) —
+	// a running-flag flipped by another goroutine; lets one iteration of a `for flag {…}` loop be evaluated.
+	Sequence map[string][]bool
 	// SelectChoice picks the ready case of the nth (0-based) execution of a select statement in a run;
 	// when nil, the choice atom named "select@<function>" is used for every execution.
 	SelectChoice func(st *State, name string, nth int) int
@@ -474,6 +479,7 @@ type machine struct {
 	steps int
 	depth int
 	nsel  map[string]int
+	nseq  map[string]int
 	egErr AV // first non-nil error returned by a function run through errgroup.Group.Go (Harness.Concrete)
 }
 
@@ -706,6 +712,18 @@ func (m *machine) loadCell(c *cell) AV {
 			return o
 		}
 		return avStruct{c}
+	}
+	if seq, ok := m.h.Sequence[c.sym]; ok && c.sym != "" && !c.written {
+		// a flag another goroutine flips: successive reads see the listed values, the last one for ever
+		if m.nseq == nil {
+			m.nseq = map[string]int{}
+		}
+		i := m.nseq[c.sym]
+		m.nseq[c.sym] = i + 1
+		if i >= len(seq) {
+			i = len(seq) - 1
+		}
+		return avBool{seq[i]}
 	}
 	if !c.have {
 		if c.sym != "" {
@@ -1353,13 +1371,20 @@ func (m *machine) invoke(fr *frame, cc *ssa.CallCommon, args []AV, label string)
 		}
 	}
 	if m.h.Complete != nil {
-		if f, cbArgs, ok := m.h.Complete(m.st, label, args); ok {
+		if f, calls, ok := m.h.Complete(m.st, label, args); ok {
 			fv, isF := f.(avFunc)
 			if !isF || fv.fn == nil {
 				m.fail("the completion callback handed to %s is not a known function", label)
 			}
 			m.effect(label, args)
-			m.call(fv.fn, cbArgs, fv.bindings)
+			for _, cbArgs := range calls {
+				rs := m.call(fv.fn, cbArgs, fv.bindings)
+				if len(rs) == 1 {
+					if b, isB := rs[0].(avBool); isB && !b.b {
+						break
+					}
+				}
+			}
 			if rs, ok := m.oracle(label, args, res); ok {
 				return rs
 			}
